@@ -137,7 +137,7 @@ func VerifH_C01_SampleSound() {
 	s := Sample{
 		Share:     verifSymShare(verifArbNs("ns"), "resp"),
 		Proof:     verifArbProofN("proof", 3),
-		ProofType: rsmt2d.Axis(nd.Choice(3, "axis")),
+		ProofType: rsmt2d.Axis(nd.Int("axis")), // any value of the wire's int32 enum and beyond
 	}
 	if err := s.Verify(roots, row, col); err != nil {
 		nd.Cover("rejected")
@@ -194,7 +194,7 @@ func VerifH_C01_RowSound() {
 	for i := range shares {
 		shares[i] = verifSymShare(verifArbNs("ns"), "resp")
 	}
-	r := NewRow(shares, RowSide(nd.Choice(4, "side")))
+	r := NewRow(shares, RowSide(nd.Int("side"))) // any value of the wire enum and beyond
 	if err := r.Verify(roots, idx); err != nil {
 		nd.Cover("rejected")
 		return
